@@ -444,6 +444,10 @@ def check_c01(res, tier, replay):
         if known_seen.get(comp):
             res.known_hit.append(known_line(f) + ' [witness and %d generated cases differ from the documented formula, equal to the as-is model]' % known_seen[comp])
     if not replay:
+        ac_n, ac_bad = check_alt_constructors(res, rng, tier)
+        bad_cases += ac_bad
+        res.coverage['default_and_variant_constructors'] = ac_n
+    if not replay:
         zi_n, zi_bad = check_int_indicators(res, rng, tier, 'C01')
         bad_cases += zi_bad
         res.coverage['integer_element_type_cases'] = zi_n
@@ -665,6 +669,46 @@ def c04_pass(res, rng, tier, base, stats, report_corr=True):
     stats['mism'] += mism
     stats['bad'] += bad
     stats['samples'] += [{'kind': d[0], 'cut': d[2], 'name': d[3][0], 'ns': d[3][1], 'n': len(base[d[1]][3][0])} for d in derived[:3]]
+
+
+# constructors the harness does not otherwise call: (catalog name, configuration they are documented to produce)
+ALT_CTORS = {
+    'NewAtr': ('Atr', None), 'NewAtrWithPeriod7': ('Atr', ([0, 7], [])), 'NewBollingerBands': ('BollingerBands', None), 'NewCci': ('Cci', None),
+    'NewCmf': ('Cmf', None), 'NewDonchianChannel': ('DonchianChannel', None), 'NewEma': ('Ema', None), 'NewEmv': ('Emv', None),
+    'NewEnvelopeWithEma': ('Envelope', ([1, 20], [20.0])), 'NewEnvelopeWithSma': ('Envelope', ([0, 20], [20.0])), 'NewFi': ('Fi', None),
+    'NewKama': ('Kama', None), 'NewMacd': ('Macd', None),
+    # NewMovingMax() / NewMovingMin() leave Period at 0 (to be set by the caller): not an admissible configuration, not compared
+    'NewMovingStd': ('MovingStd', ([1], [])), 'NewMovingSum': ('MovingSum', ([1], [])), 'NewPercentB': ('PercentB', None), 'NewPo': ('Po', None),
+    'NewRma': ('Rma', None), 'NewRsi': ('Rsi', None), 'NewSma': ('Sma', None), 'NewSmma': ('Smma', None), 'NewStochasticRsi': ('StochasticRsi', None),
+    'NewSuperTrend': ('SuperTrend', None), 'NewSuperTrendWithPeriod': ('SuperTrend', ([5, 6], [1.5])), 'NewTsi': ('Tsi', None), 'NewVwap': ('Vwap', None),
+}
+
+
+def check_alt_constructors(res, rng, tier):
+    """default constructors and convenience variants give the documented default configuration (whose behaviour the rest of the
+    check establishes).  Returns (cases, bad)."""
+    from c_runtime import sched_line, parse_sched
+    lines, meta = [], []
+    for rep in range(1 if tier == 'quick' else 4):
+        for cid, (name, cfg) in ALT_CTORS.items():
+            ns, fs = cfg if cfg is not None else CAT[name][2]
+            streams_, _, _ = make_inputs(rng, name, rng.randrange(90, 160))
+            k = len(meta)
+            lines.append('a%d CTORALT %s %s' % (k, cid, streams(streams_)))
+            lines.append('b%d %s' % (k, sched_line('IND', name, list(ns), list(fs), streams_, 0, 0)))
+            meta.append((cid, name, list(ns), list(fs)))
+    go = vlib.run_go(lines)
+    bad = 0
+    for k, (cid, name, ns, fs) in enumerate(meta):
+        a = go.get('a%d' % k, 'missing')
+        b = parse_sched(go.get('b%d' % k, 'missing'))
+        if not a.startswith('ok ') or b['status'] != 'ok' or a[3:].strip() != (b['outs'] or '').strip():
+            bad += 1
+            if bad <= 6:
+                res.violation({'lines': [lines[2 * k].split(' ', 1)[1]], 'constructor': cid, 'documented_configuration': {'name': name, 'ns': ns, 'fs': fs},
+                               'problem': 'the value returned by %s does not behave like %s configured with %s %s: %s vs %s' % (
+                                   cid, name, ns, fs, a[:120], (b['outs'] or b['status'])[:120])})
+    return len(meta), bad
 
 
 # =====================================================================================  integer element types
